@@ -39,7 +39,7 @@ prop("C03", M(UN + CMP + ["ElMax", "ElMin"] + AR + ["Equals", "Broadcast"]) + ["
      paper=[],
      expl="Public element-wise operations are proved against the internal operations; the 22 scalar closures are executed symbolically (their bodies are the semantics of the function values); broadcasting is proved from targetBroadcastDims / the Broadcast validator via the lemmas btarget*. The tree recursions (calcData) and the broadcast element generator with initWith.fill are proved as well (Map1/Map2 tree relations, generator protocol); and so is equals (COUNT: the fold of + over a tree of 0/1 leaves counts the one-leaves; that count reaches the number of leaves iff every leaf is 1).")
 prop("C04", M(["MatMul", "Dot", "Transpose"]) + ["cputensor.broadcastForMatMul", "cputensor.broadcastForBinaryOp", "cputensor.matMulDims", "cputensor.dotDims", "cputensor.transposeDims", "validator.ValidateMatMulDims", "validator.ValidateDotProductDims", "validator.ValidateTransposeDims"],
-     bounded=[("TestLinalg", "cross-check of the proved matMul / dot / transpose (element values, swapped indices) and the identities A.I = A, (A.B)^T = B^T.A^T", "ranks 1..4, m,n,k in 1..3, every broadcast-compatible batch-shape pair with sizes <= 2")],
+     bounded=[("TestLinalg", "cross-check of the proved matMul / dot / transpose (element values, swapped indices) and the identities A.I = A, (A.B)^T = B^T.A^T", "ranks 1..4, m,n,k in 1..3, every broadcast-compatible batch-shape pair with sizes <= 2; entries below the equality tolerance (1e-250 .. 1e-240) against factors of 1e260")],
      paper=["SUM-EXT: sums of products depend only on the elements of the operands", "matrix identities follow from the element formula (algebra)"],
      expl="Shapes, error conditions and the broadcasting of batch dimensions are proved for every rank; the element values are proved too: dsum / msum are defined by partial sums along the contracted dimension, dotProductOf1DInputs and the triple loop matMulDataOf2DInputs are proved against them, and the batch generators and the transpose generator are proved under the generator protocol (DESIGN.md 0.4).")
 prop("C05", M(WHOLE + ALONG) + ["cputensor.squeezeDims", "validator.ValidateReducedDimAgainstDims", "cputensor.CPUTensor.numElems"],
@@ -88,7 +88,7 @@ prop("C15", ["activations.*"],
      bounded=[("TestActivationGrads", "gradient of each activation (input a leaf or an intermediate) against the analytic derivative", "shapes of rank <= 3, sizes <= 3, values including exactly 0, every Softmax dim, non-uniform upstream")],
      expl="As C13: forward graphs proved (C14), rules proved (C02); the composed gradient is decided by the bounded stand-in.")
 prop("C16", ["layers.*"],
-     bounded=[("TestFC", "affine value y[b][o] = W[o]*sum_d x[b][d] + B[o], row independence, gradients of W, B, x", "batch, features, outputs <= 3, non-uniform values, parameter replacement through Weights()")],
+     bounded=[("TestFC", "affine value y[b][o] = W[o]*sum_d x[b][d] + B[o], row independence, gradients of W, B, x", "batch, features, outputs <= 3, non-uniform values, one weight below the equality tolerance against an input of 1e260, parameter replacement through Weights()")],
      paper=["linearity of the sum over d"],
      expl="Proved: NewFC / config validation, Weights() returns the addresses of the fields read by Forward, Forward never fails for a [batch, features] input while W, B have shape [Outputs] and returns [batch, Outputs] (shape algebra of UnSqueeze, broadcasting MatMul, SumAlong, broadcasting Add).")
 prop("C17", ["optimizers.*"], level="proof",
